@@ -216,6 +216,16 @@ class RegexPlugin(TaggingPlugin):
         def r(self):
             return "Regex %r" % self.text
 
+        def query(self, parser):
+            # A pattern that doesn't compile would only blow up when the
+            # query is run; report it in-band now
+            try:
+                rcompile(self.text)
+            except Exception:
+                e = sys.exc_info()[1]
+                return attach(query.error_query(e), self)
+            return syntax.TextNode.query(self, parser)
+
     expr = 'r"(?P<text>[^"]*)"'
     nodetype = RegexNode
 
